@@ -19,10 +19,10 @@ import (
 // every retained file must parse into whole records, and the retained stream (oldest backup → current file) must be
 // a suffix of a linearisation of the writes (per writer: consecutive sequence numbers ending at its last record).
 //
-// line: stress <maxSize> <maxBackups> <writers> <perWriter> <seed>
-type stress struct{}
+// line: stress <maxSize> <maxBackups> <writers> <perWriter> <seed> <mode>   (mode 1: fixed-length records)
+type stress struct{ timedOut bool }
 
-func (stress) Gen(r *hx.Rng, n int, tier string, emit func(string)) {
+func (*stress) Gen(r *hx.Rng, n int, tier string, emit func(string)) {
 	for i := 0; i < n; i++ {
 		max := hx.Pick(r, []int{48, 64, 256, 1000, 4096, 100000})
 		backups := hx.Pick(r, []int{0, 1, 2, 5})
@@ -31,12 +31,26 @@ func (stress) Gen(r *hx.Rng, n int, tier string, emit func(string)) {
 		if tier == "thorough" {
 			per = r.Range(100, 600)
 		}
-		emit(fmt.Sprintf("stress %d %d %d %d %d", max, backups, writers, per, r.Intn(1000000)))
+		mode := 0
+		if i%3 == 1 {
+			// tight: all records have the same length (12 bytes) and MaxSize is a multiple of it, many files are kept:
+			// every file ends with writers racing for its last slot (check-then-act on the size shows as a file that is
+			// longer than MaxSize although no record is)
+			mode = 1
+			max = 12 * hx.Pick(r, []int{2, 5, 10, 50, 100})
+			backups = hx.Pick(r, []int{12, 25, 100})
+			writers = r.Range(4, 12)
+			per = r.Range(150, 400)
+		}
+		emit(fmt.Sprintf("stress %d %d %d %d %d %d", max, backups, writers, per, r.Intn(1000000), mode))
 	}
 }
 
 // payloadLen is a deterministic function of (seed, writer, seq) so that the parser knows the exact expected record.
 func payloadLen(seed, g, q int) int {
+	if seed < 0 { // tight mode
+		return 0
+	}
 	x := uint64(seed)*0x9E3779B97F4A7C15 + uint64(g)*0xBF58476D1CE4E5B9 + uint64(q)*0x94D049BB133111EB
 	x ^= x >> 29
 	x *= 0xD6E8FEB86659FD93
@@ -79,12 +93,18 @@ func parse(seed int, data []byte) ([]rec, bool) {
 	return out, true
 }
 
-func (stress) Run(line string) string {
+func (st *stress) Run(line string) string {
 	f := strings.Fields(line)
-	if len(f) != 6 || f[0] != "stress" {
+	if len(f) != 7 || f[0] != "stress" {
 		return "bad-op"
 	}
+	if st.timedOut {
+		return "ok skipped (an earlier stress line timed out)"
+	}
 	max, backups, writers, per, seed := hx.Atoi(f[1]), hx.Atoi(f[2]), hx.Atoi(f[3]), hx.Atoi(f[4]), hx.Atoi(f[5])
+	if f[6] == "1" {
+		seed = -1 - seed
+	}
 	root, err := os.MkdirTemp(scratchBase(), "c12s-")
 	if err != nil {
 		return "FAIL mktemp"
@@ -114,7 +134,7 @@ func (stress) Run(line string) string {
 					}
 					mu.Unlock()
 				}
-				if q%17 == 3 && g == 0 { // Close from one writer in between: later writes re-open
+				if q%17 == 3 && g == 0 && seed >= 0 { // Close from one writer in between: later writes re-open
 					_ = r.Close()
 				}
 			}
@@ -125,7 +145,8 @@ func (stress) Run(line string) string {
 	close(start)
 	select {
 	case <-done:
-	case <-time.After(envMS("C12_STRESS_MS", 20000)):
+	case <-time.After(envMS("C12_STRESS_MS", 10000)):
+		st.timedOut = true
 		// make the spinning writers fail (see rot.write) so that they do not burn cores for the rest of the run
 		stop := time.Now().Add(5 * time.Second)
 		for time.Now().Before(stop) {
